@@ -504,6 +504,13 @@ func (e *Exec) primitive(st *State, fr *Frame, fn *ssa.Function, args []Value, p
 		p := args[0].(*PtrV)
 		l := e.locOf(p)
 		return one(st, st.LoadLoc(Loc{Key: l.Key + ".$held", Idx: l.Idx, T: types.Typ[types.Bool]}).(*Term)), true
+	case "prim_havoc": // the slice's elements become arbitrary (symbolic contents of a concrete-length buffer)
+		s := args[0].(*SliceV)
+		for _, cp := range components(s.Elem) {
+			old := st.arrayOf(s.Elem, cp, s.Arr)
+			st.setArrayOf(s.Elem, cp, s.Arr, ArrayCopy(old, s.Off, Fresh("havoc", old.Sort), s.Off, s.Len))
+		}
+		return one(st), true
 	case "prim_chanheld":
 		return one(st, e.chanHeld(st, args[0].(*Term))), true
 	case "prim_forall":
